@@ -163,6 +163,13 @@ pub fn exec(c: &Case) -> Outcome {
     let mut sess = open_session(
         &ClientCfg {
             heartbeat: hb,
+            // the write-buffer water marks are tuning, not protocol: closing must not depend on
+            // them (a third of the sessions run with a low-water mark of 12 bytes or 1 MiB)
+            low_water: match (c.salt >> 33) % 6 {
+                0 => 12,
+                1 => 1 << 20,
+                _ => 0,
+            },
             ..Default::default()
         },
         ServerCfg {
@@ -202,6 +209,7 @@ pub fn exec(c: &Case) -> Outcome {
         let tx = tx.clone();
         let ready_tx = ready_tx.clone();
         let stop = stop.clone();
+        let salt = c.salt;
         std::thread::Builder::new()
             .name(format!("avh-c08-{}", i))
             .spawn(move || {
@@ -213,6 +221,18 @@ pub fn exec(c: &Case) -> Outcome {
                         tags.push(cn.consumer_tag().to_string());
                         rxs.push(cn.receiver().clone());
                         std::mem::forget(cn);
+                    }
+                }
+                // consumers that the thread owns as objects and drops the moment its racing
+                // operation fails (an application's natural reaction): thousands of them in one
+                // session out of sixteen, so that the I/O thread is still busy notifying when the
+                // first of them goes away
+                let flood_every: u64 = std::env::var("AVH_C08_FLOOD_EVERY").ok().and_then(|v| v.parse().ok()).unwrap_or(16);
+                let n_extra = if racing && (salt >> (40 + i)) % flood_every == 0 { 2500 + (salt >> 13) as usize % 2000 } else { (salt >> (44 + i)) as usize % 3 };
+                let mut disposable = Vec::new();
+                for _ in 0..(if racing { n_extra } else { 0 }) {
+                    if let Ok(cn) = ch.basic_consume("q", ConsumerOptions::default()) {
+                        disposable.push(cn);
                     }
                 }
                 let _ = ready_tx.send((chid, tags));
@@ -231,6 +251,22 @@ pub fn exec(c: &Case) -> Outcome {
                         }
                         std::thread::sleep(Duration::from_micros(200));
                         continue;
+                    }
+                    if disposable.len() > 100 {
+                        // flood mode: the racing operation is Consumer::cancel, one consumer after
+                        // the other; a consumer whose cancel fails is dropped on the spot
+                        let cn = disposable.pop().unwrap();
+                        match cn.cancel() {
+                            Ok(()) => {
+                                drop(cn);
+                                continue;
+                            }
+                            Err(e) => {
+                                drop(cn);
+                                rep.first_error = Some(format!("{:?}", e));
+                                break;
+                            }
+                        }
                     }
                     let body = racing_body(chid, k);
                     match ch.basic_publish("", Publish::new(&body, "race")) {
@@ -253,6 +289,7 @@ pub fn exec(c: &Case) -> Outcome {
                         break;
                     }
                 }
+                drop(disposable);
                 if rep.first_error.is_none() {
                     // "every still-open channel's next call fails with ..."
                     match ch.qos(0, 1, false) {
@@ -542,7 +579,7 @@ pub fn strat(_t: Tier) -> BoxedStrategy<Case> {
 pub fn parts() -> Vec<Box<dyn PartDyn>> {
     vec![Box::new(Part::<Case> {
         name: "e2e",
-        rule: "sessions with 0-4 open channels (a thread each, 0-3 consumers, optionally racing numbered nowait publishes and synchronous calls against the close), closed after 0-3 ms either by the client (server follow-up: CloseOk / CloseOk then EOF in a later read / CloseOk and EOF in the same read / deliveries then CloseOk) or by the server (arbitrary reply code and text, socket closed or kept after the client's CloseOk), optionally with the transport stalled at the moment of closing and released 3 ms later; oracle: client close - exactly one Connection.Close(200, goodbye, 0, 0) and it is the last frame, close returns Ok in all four follow-up variants, every channel's first error is ClientClosedConnection, every consumer ends with ClientClosedConnection and is disconnected; server close - CloseOk is the last frame (exactly one), every channel's first error / every consumer / Connection::close carry ServerClosedConnection{code, text}; both - later calls fail, whole frames only, each channel's racing publishes appear as #0..#m without gaps or reordering and none that was not issued; non-trivial = a channel with a consumer and (racing ops or stalled transport or the same-read EOF variant); distinct by case hash",
+        rule: "sessions with 0-4 open channels (a thread each, 0-3 consumers, optionally racing numbered nowait publishes and synchronous calls against the close, and then owning 0-2 - in one session of sixteen 2500-4500 - further consumers which it drops the moment its racing operation fails (with thousands of consumers the racing operation is Consumer::cancel, one after the other)), closed after 0-3 ms either by the client (server follow-up: CloseOk / CloseOk then EOF in a later read / CloseOk and EOF in the same read / deliveries then CloseOk) or by the server (arbitrary reply code and text, socket closed or kept after the client's CloseOk), optionally with the transport stalled at the moment of closing and released 3 ms later, with buffered_writes_low_water 0 (default), 12 bytes or 1 MiB; oracle: client close - exactly one Connection.Close(200, goodbye, 0, 0) and it is the last frame, close returns Ok in all four follow-up variants, every channel's first error is ClientClosedConnection, every consumer ends with ClientClosedConnection and is disconnected; server close - CloseOk is the last frame (exactly one), every channel's first error / every consumer / Connection::close carry ServerClosedConnection{code, text}; both - later calls fail, whole frames only, each channel's racing publishes appear as #0..#m without gaps or reordering and none that was not issued; non-trivial = a channel with a consumer and (racing ops or stalled transport or the same-read EOF variant); distinct by case hash",
         cases: |t| t.pick(2000, 30_000),
         threads: 10,
         strategy: strat,
